@@ -43,6 +43,13 @@ def run(ctx, R, tier):
     for st, t, k in stores_in(f.node):
         if k == "with" and isinstance(t, ast.Name):
             proxy_vars.add(t.id)
+    # the proxy that carries a request is made for that request (`with client.Proxy(uri) as proxy:`): per-request settings written onto it (the oneway option adds the
+    # method to proxy._pyroOneway) must not survive into the next request through a kept proxy
+    withs_ = [w for w in walk_no_nested(f.node) if isinstance(w, ast.With) and any(isinstance(it.optional_vars, ast.Name) and it.optional_vars.id in proxy_vars for it in w.items)]
+    fresh_ = all(isinstance(it.context_expr, ast.Call) and ctx.resolves_to_object(it.context_expr.func, f, "Pyro5.client.Proxy")
+                 for w in withs_ for it in w.items if isinstance(it.optional_vars, ast.Name) and it.optional_vars.id in proxy_vars)
+    R.check(bool(withs_) and fresh_, "C20-R3", "proxy|made-for-this-request", "the forwarding proxy is constructed for the request (client.Proxy(uri) in the with statement)", f.loc(withs_[0]) if withs_ else f.loc(),
+            "the request is forwarded through a proxy that is not constructed here (a kept / cached one): what one request set on it - e.g. the oneway option - applies to later requests")
     ns_vars = {t.id for st, t, k in stores_in(f.node) if k == "assign" and isinstance(t, ast.Name) and isinstance(st.value, ast.Call)
                and ctx.is_call_to(st.value, f, GW + ".get_nameserver")}
     for c, tgs in ctx.cg.calls_of(f):
